@@ -10,7 +10,7 @@ package nodef
 
 //@ func (*ServerInfo).ResetDefault
 //@   requires st != nil
-//@   modifies *st
+//@   pure
 //@   safety [C05]
 //
 //@ func (*ServerInfo).ReadFrom
@@ -21,6 +21,28 @@ package nodef
 //@   allocates
 //@   ensures [C05] readBuf.buf.i >= p0
 //@   ensures [C05] validR(readBuf)
+//@   let src = readBuf.buf.src
+//@   let d0 = readBuf.depth
+//@   let q0 = readBuf.buf.i
+//@   let k1 = decStrK(src, q0, 0, true, d0)
+//@   let q1 = (k1 == 0 ? decStrP(src, q0, 0, d0) : seekP(src, q0, 0, d0))
+//@   let ok1 = (k1 == 0 || (k1 == 1 && (seekK(src, q0, 0, d0) == 2 || (seekK(src, q0, 0, d0) == 1 && seekCanon(src, q0, 0, d0)))))
+//@   let k2 = decStrK(src, q1, 1, true, d0)
+//@   let q2 = (k2 == 0 ? decStrP(src, q1, 1, d0) : seekP(src, q1, 1, d0))
+//@   let ok2 = ok1 && (k2 == 0 || (k2 == 1 && (seekK(src, q1, 1, d0) == 2 || (seekK(src, q1, 1, d0) == 1 && seekCanon(src, q1, 1, d0)))))
+//@   let k3 = decIntK(src, q2, 2, true, 4, d0)
+//@   let q3 = (k3 == 0 ? decIntP(src, q2, 2, d0) : seekP(src, q2, 2, d0))
+//@   let ok3 = ok2 && (k3 == 0 || (k3 == 1 && (seekK(src, q2, 2, d0) == 2 || (seekK(src, q2, 2, d0) == 1 && seekCanon(src, q2, 2, d0)))))
+//@   let k4 = decStrK(src, q3, 3, false, d0)
+//@   let q4 = (k4 == 0 ? decStrP(src, q3, 3, d0) : seekP(src, q3, 3, d0))
+//@   let ok4 = ok3 && (k4 == 0 || (k4 == 1 && (seekK(src, q3, 3, d0) == 2 || (seekK(src, q3, 3, d0) == 1 && seekCanon(src, q3, 3, d0)))))
+//@   opaque [C04] *
+//@   perreturn
+//@   ensures [C04] (ok1 && err == nil) ==> st.Application == (k1 == 0 ? decStrV(src, q0, 0, d0) : old(st.Application))
+//@   ensures [C04] (ok2 && err == nil) ==> st.ServerName == (k2 == 0 ? decStrV(src, q1, 1, d0) : old(st.ServerName))
+//@   ensures [C04] (ok3 && err == nil) ==> st.Pid == (k3 == 0 ? decIntV(src, q2, 2, d0) : old(st.Pid))
+//@   ensures [C04] (ok4 && err == nil) ==> st.Adapter == (k4 == 0 ? decStrV(src, q3, 3, d0) : old(st.Adapter))
+//@   ensures [C04] ok4 ==> (err == nil && readBuf.buf.i == q4)
 //@   safety [C05]
 //
 //@ func (*ServerInfo).ReadBlock
